@@ -26,6 +26,7 @@ EXPLANATION = (
     ' Added after seed round 3: (9) FOCUS-FWD - every function that receives `focus` hands it on to each callee that takes it, so render(), rows() and pack() agree on the size of the focused rendering; (10) the Scrollable clamp rule of C20 (an unclamped position trims more rows than exist); (11) ACCUM - the running column of shards_trim_sides and the space budget of Columns.column_widths advance in every continuing iteration; (12) BarGraph.hlines_display collapses h-lines by the row it stores.'
     ' Round 4: (13) LOOPFRESH, (14) segment width measured over its own offsets (C03.13), (15) scroll-bar parts (C20.3).'
     " Round-4 triage: (17) widget text is cut into lines at the layout's separator only - no str.splitlines() in the widget / layout / canvas layers; split()/count() in a measurement use the newline constant of the layout. Round 5: (18) Frame.render cuts each part with its own trim; (19) SHADOW - no loop target clobbers a live local (the rule that found the resize() defect of vterm, applied to all widget modules); (20) every CompositeCanvas method that cuts rows / columns away drops a cursor left outside."
+    ' (21) NONNEG: the position given to CanvasOverlay() / overlay() is clamped at 0 wherever the calling function itself treats it as possibly negative (fix a7d4a9b: Overlay with a packed top widget wider than the screen gave rows of 9, 11, 9 columns).'
 )
 NOT_DECIDED = (
     "That composed canvases actually have the requested size for all trees/sizes/texts (value semantics of shards, layout and padding); truthfulness of sizing(); wide-character column "
@@ -345,6 +346,54 @@ def _shadow(ctx: Ctx):
     return shadow.run_shadow(ctx.p, "C01.19", modules(ctx.p), floor=100, description="no `for` target in the widget / canvas / layout modules clobbers a local that is read after the loop with its earlier meaning")
 
 
+def rule_overlay_position(ctx: Ctx) -> RuleResult:
+    """CompositeCanvas.overlay(other, left, top) places `other` at (left, top) of the canvas it covers; it verifies
+    that `other` does not stick out on the right / at the bottom but takes left and top as they come.  A negative
+    position makes the middle rows wider than the rest (row widths 9, 11, 9 - before fix a7d4a9b Overlay.render passed
+    the negative padding of a top widget wider than the screen).  Every position argument of CanvasOverlay() /
+    .overlay() therefore is visibly non-negative: max(0, x), a non-negative constant, or a local that the function
+    never tests / clamps against 0 (no `x < 0`, `min(0, x)`: nothing suggests it can be negative)."""
+    p = ctx.p
+    rr = RuleResult("NONNEG", "C01.21", "the position handed to CanvasOverlay() / CompositeCanvas.overlay() is clamped at 0 wherever the function itself treats it as possibly negative", floor=2)
+    for fi in p.functions.values():
+        if not fi.module.name.startswith("urwid."):
+            continue
+        for c in fi.own_nodes():
+            if not isinstance(c, ast.Call):
+                continue
+            nm = callee_name(c)
+            if nm == "CanvasOverlay" and len(c.args) >= 4:
+                pos = c.args[2:4]
+            elif nm == "overlay" and isinstance(c.func, ast.Attribute) and len(c.args) >= 3:
+                pos = c.args[1:3]
+            else:
+                continue
+            for a in pos:
+                ident = f"{short(fi)}: {norm(c, 50)}: {norm(a, 20)}"
+                why = None
+                if isinstance(a, ast.Call) and callee_name(a) == "max" and any(isinstance(x, ast.Constant) and x.value == 0 for x in a.args):
+                    why = "max(0, .)"
+                elif isinstance(a, ast.Constant) and isinstance(a.value, int) and a.value >= 0:
+                    why = "constant"
+                elif isinstance(a, ast.Name):
+                    neg = []
+                    for x in fi.own_nodes():
+                        if isinstance(x, ast.Compare) and len(x.ops) == 1 and isinstance(x.left, ast.Name) and x.left.id == a.id and isinstance(x.ops[0], (ast.Lt, ast.LtE)) and isinstance(x.comparators[0], ast.Constant) and x.comparators[0].value == 0:
+                            neg.append(x)
+                        elif isinstance(x, ast.Call) and callee_name(x) == "min" and any(isinstance(y, ast.Constant) and y.value == 0 for y in x.args) and any(isinstance(y, ast.Name) and y.id == a.id for y in x.args):
+                            neg.append(x)
+                    if not neg:
+                        why = "never treated as negative here"
+                    else:
+                        rr.inst(ident, True)
+                        rr.add(finding("NONNEG", fi, c, f"`{norm(c, 70)}` passes `{a.id}` as a position although {fi.name}() itself allows for `{a.id}` being negative (`{norm(neg[0], 40)}`): overlay() does not check left / top, the covered rows come out wider than the canvas", construct=f"possibly negative {a.id} as overlay position"))
+                        continue
+                else:
+                    why = "expression"
+                rr.inst(ident, True, {"call": f"{short(fi)}: {norm(c, 60)}", "position": norm(a, 30), "non_negative_by": why})
+    return rr
+
+
 def rule_trim_drops_cursor(ctx: Ctx) -> RuleResult:
     """'a cursor, if present, lies inside the canvas': the methods of CompositeCanvas that cut rows or columns away
     (they call shards_trim_top / shards_trim_rows / shards_trim_sides) move the cursor coordinates with the content;
@@ -416,6 +465,7 @@ def run(ctx: Ctx):
         rule_frame_trims(ctx),
         _shadow(ctx),
         rule_trim_drops_cursor(ctx),
+        rule_overlay_position(ctx),
     ]
 
 
@@ -424,6 +474,7 @@ _COLS = "urwid/widget/columns.py"
 _CANV = "urwid/canvas.py"
 _TEXT = "urwid/widget/text.py"
 MUTANTS = [
+    Mut("overlay-negative-left-position", "urwid/widget/overlay.py", "Overlay.render", "        return CanvasOverlay(top_c, bottom_c, max(0, left), max(0, top))", "        return CanvasOverlay(top_c, bottom_c, left, top)", "NONNEG|widget.overlay.Overlay.render|possibly negative left as overlay position"),
     Mut("trim-end-keeps-outside-cursor", _CANV, "CompositeCanvas.trim_end", "        self.shards = shards_trim_rows(self.shards, self.rows() - end)\n        self._drop_trimmed_cursor()\n", "        self.shards = shards_trim_rows(self.shards, self.rows() - end)\n", "PASS|canvas.CompositeCanvas.trim_end"),
     Mut("side-trim-keeps-outside-cursor", _CANV, "CompositeCanvas.pad_trim_left_right", "        if left < 0 or right < 0:\n            self._drop_trimmed_cursor()\n", "", "PASS|canvas.CompositeCanvas.pad_trim_left_right"),
     Mut("frame-footer-cut-with-header-trim", "urwid/widget/frame.py", "Frame.render", "foot = Filler(self.footer, VAlign.BOTTOM).render((maxcol, ftrim), focus and self.focus_part == \"footer\")", "foot = Filler(self.footer, VAlign.BOTTOM).render((maxcol, htrim), focus and self.focus_part == \"footer\")", "SIB|widget.frame.Frame.render"),
